@@ -8,3 +8,5 @@ require (
 )
 
 replace github.com/DemoHn/Zn => /repo
+
+godebug default=go1.18
